@@ -229,8 +229,10 @@ func (dq *Deque[T]) waitPushAfter(ctx context.Context, it T, afterGetter func() 
 
 	cond := dq.updates
 	// If the context terminates, wake the waiter.
+	// (broadcast under the lock, so that it cannot be lost between the
+	// waiter's check of the context and its call to Wait.)
 	ctx, cancel := context.WithCancel(ctx)
-	go func() { <-ctx.Done(); cond.Broadcast() }()
+	go func() { <-ctx.Done(); defer adt.With(adt.Lock(dq.mtx)); cond.Broadcast() }()
 	defer cancel()
 
 	for dq.tracker.cap() <= dq.tracker.len() {
@@ -476,8 +478,10 @@ func (it *element[T]) wait(ctx context.Context, direction dqDirection) error {
 	}
 
 	// If the context terminates, wake the waiter.
+	// (broadcast under the lock, so that it cannot be lost between the
+	// waiter's check of the context and its call to Wait.)
 	ctx, cancel := context.WithCancel(ctx)
-	go func() { <-ctx.Done(); cond.Broadcast() }()
+	go func() { <-ctx.Done(); defer adt.With(adt.Lock(it.list.mtx)); cond.Broadcast() }()
 	defer cancel()
 
 	next := it.getNextOrPrevious(direction)
